@@ -107,6 +107,14 @@ pub fn dec_oracle(c: &Dec) -> Verdict {
         Ok(b) => ensure!(b.to_parts() == d.to_parts(), "from_str({:?}) = count {}, want {}", txt, count(b), cnt),
         Err(e) => return Verdict::Fail(format!("from_str({:?}) fails: {:?}", txt, e)),
     }
+    // the text form requested with sign / width / fill / alignment flags is still the human-readable form:
+    // it parses back to the identical duration (padding around it apart)
+    for (flag, t) in [("{:+}", lib!(format!("{d:+}"))), ("{:4}", lib!(format!("{d:4}"))), ("{:08}", lib!(format!("{d:08}"))), ("{:>40}", lib!(format!("{d:>40}"))), ("{:<40}", lib!(format!("{d:<40}"))), ("{:^+9}", lib!(format!("{d:^+9}")))] {
+        match lib!(Duration::from_str(t.trim())) {
+            Ok(b) => ensure!(b.to_parts() == d.to_parts(), "the text form with {} is {:?}, which parses back as count {}, want {}", flag, t, count(b), cnt),
+            Err(e) => return Verdict::Fail(format!("the text form with {} is {:?}, which does not parse back: {:?}", flag, t, e)),
+        }
+    }
     // serde
     let js = lib!(serde_json::to_string(&d));
     match js {
